@@ -202,49 +202,90 @@ func c12IntBits(t types.Type) (n int, unsigned, ok bool) {
 	return n, b.Info()&types.IsUnsigned != 0, true
 }
 
-// c12StripSq strips integer conversions from a square index: a board square
-// (0..63) survives every integer conversion unchanged.
-func c12StripSq(v ssa.Value) ssa.Value {
+// c12Env binds the parameters of a chess-3 helper that is being looked
+// through to the arguments of the call (values of the caller's context, up).
+type c12Env struct {
+	fn   *ssa.Function
+	args []ssa.Value
+	up   *c12Env
+}
+
+// c12V is an SSA value together with the helper context it occurs in.
+type c12V struct {
+	v   ssa.Value
+	env *c12Env
+}
+
+func c12Top(v ssa.Value) c12V { return c12V{v: v} }
+
+// c12Res resolves a value to the expression that defines it:
+//   - renamings and integer conversions that cannot lose bits are stripped
+//     (anyInt: every integer conversion — a board square 0..63 survives them all);
+//   - a parameter of a helper being looked through is replaced by the argument;
+//   - a static call of a chess-3 function with exactly one return of one value is
+//     replaced by the returned expression, parameters bound to the arguments
+//     (extraction of a sub-expression into a helper is transparent, depth <= 4).
+func c12Res(x c12V, anyInt bool) c12V {
 	for {
-		switch x := v.(type) {
+		switch t := x.v.(type) {
 		case *ssa.ChangeType:
-			v = x.X
+			x.v = t.X
 		case *ssa.Convert:
-			_, _, a := c12IntBits(x.Type())
-			_, _, b := c12IntBits(x.X.Type())
-			if !a || !b {
-				return v
+			d, _, a := c12IntBits(t.Type())
+			s, _, b := c12IntBits(t.X.Type())
+			if !a || !b || (!anyInt && d < s) {
+				return x
 			}
-			v = x.X
+			x.v = t.X
+		case *ssa.Parameter:
+			if x.env == nil || t.Parent() != x.env.fn {
+				return x
+			}
+			i := 0
+			for i < len(x.env.fn.Params) && x.env.fn.Params[i] != t {
+				i++
+			}
+			if i >= len(x.env.args) {
+				return x
+			}
+			x = c12V{x.env.args[i], x.env.up}
+		case *ssa.Call:
+			callee := t.Call.StaticCallee()
+			if t.Call.IsInvoke() || callee == nil || !isOwn(callee) || callee.Blocks == nil || len(t.Call.Args) != len(callee.Params) || len(callee.FreeVars) != 0 {
+				return x
+			}
+			depth := 0
+			for e := x.env; e != nil; e = e.up {
+				if e.fn == callee {
+					return x
+				}
+				depth++
+			}
+			ret := c12SingleReturn(callee)
+			if ret == nil || depth >= 4 {
+				return x
+			}
+			x = c12V{ret, &c12Env{callee, t.Call.Args, x.env}}
 		default:
-			return v
+			return x
 		}
 	}
 }
 
-// c12StripWiden strips renamings and integer conversions that cannot lose
-// bits (destination at least as wide as the source).
-func c12StripWiden(v ssa.Value) ssa.Value {
-	for {
-		switch x := v.(type) {
-		case *ssa.ChangeType:
-			v = x.X
-		case *ssa.Convert:
-			d, _, a := c12IntBits(x.Type())
-			s, _, b := c12IntBits(x.X.Type())
-			if !a || !b || d < s {
-				return v
-			}
-			v = x.X
-		default:
-			return v
-		}
+// c12Bin: x resolves to a binary operation op; operands in x's context.
+func c12Bin(x c12V, op token.Token) (b *ssa.BinOp, l, r c12V, ok bool) {
+	x = c12Res(x, false)
+	b, ok = x.v.(*ssa.BinOp)
+	if !ok || b.Op != op {
+		return nil, l, r, false
 	}
+	return b, c12V{b.X, x.env}, c12V{b.Y, x.env}, true
 }
 
-// c12TableLoad: v is G[i] for a package-level array G.
-func c12TableLoad(v ssa.Value) (*ssa.Global, ssa.Value, bool) {
-	u, ok := c12StripWiden(v).(*ssa.UnOp)
+// c12TableLoad: x is G[i] for a package-level array G; i resolved.
+func c12TableLoad(x c12V) (*ssa.Global, ssa.Value, bool) {
+	x = c12Res(x, false)
+	u, ok := x.v.(*ssa.UnOp)
 	if !ok || u.Op != token.MUL {
 		return nil, nil, false
 	}
@@ -252,25 +293,28 @@ func c12TableLoad(v ssa.Value) (*ssa.Global, ssa.Value, bool) {
 	if !ok {
 		return nil, nil, false
 	}
-	g, ok := ia.X.(*ssa.Global)
+	g, ok := c12Res(c12V{ia.X, x.env}, false).v.(*ssa.Global) // directly, or a pointer parameter bound to &G
 	if !ok {
 		return nil, nil, false
 	}
-	return g, c12StripSq(ia.Index), true
+	return g, c12Res(c12V{ia.Index, x.env}, true).v, true
 }
 
-// c12RowCell: addr is &T[i][j] for a package-level two-dimensional array T.
-func c12RowCell(addr ssa.Value) (t *ssa.Global, i, j ssa.Value, ok bool) {
-	in, ok := addr.(*ssa.IndexAddr)
+// c12RowCell: addr is &T[i][j] for a package-level two-dimensional array T
+// (T, or the row &T[i], possibly reaching a helper as a pointer argument).
+func c12RowCell(addr c12V) (t *ssa.Global, i ssa.Value, j c12V, ok bool) {
+	addr = c12Res(addr, false)
+	in, ok := addr.v.(*ssa.IndexAddr)
 	if !ok {
 		return
 	}
-	out, ok := in.X.(*ssa.IndexAddr)
+	o := c12Res(c12V{in.X, addr.env}, false)
+	out, ok := o.v.(*ssa.IndexAddr)
 	if !ok {
-		return nil, nil, nil, false
+		return nil, nil, j, false
 	}
-	t, ok = out.X.(*ssa.Global)
-	return t, c12StripSq(out.Index), in.Index, ok
+	t, ok = c12Res(c12V{out.X, o.env}, false).v.(*ssa.Global)
+	return t, c12Res(c12V{out.Index, o.env}, true).v, c12V{in.Index, addr.env}, ok
 }
 
 // c12Index is the recognised index expression
@@ -281,7 +325,7 @@ type c12Index struct {
 	K                  int64
 	cntBits            int // width and signedness of the type K-shift is computed in
 	cntSigned          bool
-	occ, sq            ssa.Value
+	occ, sq            ssa.Value // resolved into the context of the function analysed
 }
 
 func (ix *c12Index) String() string {
@@ -292,13 +336,13 @@ func (ix *c12Index) String() string {
 	return fmt.Sprintf("(%s*%s[sq])>>(%d-%s[sq])", m, ix.magic.Name(), ix.K, ix.shift.Name())
 }
 
-func c12MatchIndex(v ssa.Value) (*c12Index, string) {
-	shr, ok := c12StripWiden(v).(*ssa.BinOp)
-	if !ok || shr.Op != token.SHR {
+func c12MatchIndex(v c12V) (*c12Index, string) {
+	_, shX, shY, ok := c12Bin(v, token.SHR)
+	if !ok {
 		return nil, "the index is not a right shift"
 	}
-	mul, ok := c12StripWiden(shr.X).(*ssa.BinOp)
-	if !ok || mul.Op != token.MUL {
+	mul, mX, mY, ok := c12Bin(shX, token.MUL)
+	if !ok {
 		return nil, "the shifted value is not a product"
 	}
 	if n, u, ok := c12IntBits(mul.Type()); !ok || n != 64 || !u {
@@ -306,31 +350,31 @@ func c12MatchIndex(v ssa.Value) (*c12Index, string) {
 	}
 	ix := &c12Index{}
 	var sqs []ssa.Value
-	gx, sx, okx := c12TableLoad(mul.X)
-	gy, sy, oky := c12TableLoad(mul.Y)
-	var occPart ssa.Value
+	gx, sx, okx := c12TableLoad(mX)
+	gy, sy, oky := c12TableLoad(mY)
+	var occPart c12V
 	switch {
 	case okx && !oky:
-		ix.magic, occPart, sqs = gx, mul.Y, append(sqs, sx)
+		ix.magic, occPart, sqs = gx, mY, append(sqs, sx)
 	case oky && !okx:
-		ix.magic, occPart, sqs = gy, mul.X, append(sqs, sy)
+		ix.magic, occPart, sqs = gy, mX, append(sqs, sy)
 	default:
 		return nil, "cannot tell multiplier table and occupancy apart in the product"
 	}
-	ix.occ = c12StripWiden(occPart)
-	if and, ok := ix.occ.(*ssa.BinOp); ok && and.Op == token.AND {
-		if g, s, ok := c12TableLoad(and.X); ok {
-			ix.mask, ix.occ, sqs = g, c12StripWiden(and.Y), append(sqs, s)
-		} else if g, s, ok := c12TableLoad(and.Y); ok {
-			ix.mask, ix.occ, sqs = g, c12StripWiden(and.X), append(sqs, s)
+	ix.occ = c12Res(occPart, false).v
+	if _, aX, aY, ok := c12Bin(occPart, token.AND); ok {
+		if g, s, ok := c12TableLoad(aX); ok {
+			ix.mask, ix.occ, sqs = g, c12Res(aY, false).v, append(sqs, s)
+		} else if g, s, ok := c12TableLoad(aY); ok {
+			ix.mask, ix.occ, sqs = g, c12Res(aX, false).v, append(sqs, s)
 		}
 	}
-	sub, ok := c12StripWiden(shr.Y).(*ssa.BinOp)
-	if !ok || sub.Op != token.SUB {
+	sub, sX, sY, ok := c12Bin(shY, token.SUB)
+	if !ok {
 		return nil, "the shift count is not K - shift[sq]"
 	}
-	k, isConst := sub.X.(*ssa.Const)
-	g, s, okS := c12TableLoad(sub.Y)
+	k, isConst := c12Res(sX, false).v.(*ssa.Const)
+	g, s, okS := c12TableLoad(sY)
 	if !isConst || !okS {
 		return nil, "the shift count is not constant - table[sq]"
 	}
@@ -460,11 +504,12 @@ func c12MatchReader(c *Ctx, p *Prog, spec string, diag bool, calc, other string)
 	if res == nil {
 		return undec("not exactly one return of one value")
 	}
-	ld, ok := c12StripWiden(res).(*ssa.UnOp)
+	rv := c12Res(c12Top(res), false)
+	ld, ok := rv.v.(*ssa.UnOp)
 	if !ok || ld.Op != token.MUL {
 		return undec("the result is not a table load")
 	}
-	t, row, idx, ok := c12RowCell(ld.X)
+	t, row, idx, ok := c12RowCell(c12V{ld.X, rv.env})
 	if !ok {
 		return undec("the result is not loaded from a two-dimensional package-level array")
 	}
@@ -478,7 +523,10 @@ func c12MatchReader(c *Ctx, p *Prog, spec string, diag bool, calc, other string)
 	if row != ssa.Value(fn.Params[0]) || ix.sq != ssa.Value(fn.Params[0]) || ix.occ != ssa.Value(fn.Params[1]) {
 		return undec("row, tables and occupancy are not the function's (square, occupancy) parameters")
 	}
-	outer := t.Type().(*types.Pointer).Elem().Underlying().(*types.Array)
+	outer, ok := t.Type().(*types.Pointer).Elem().Underlying().(*types.Array)
+	if !ok {
+		return undec("the table is not an array")
+	}
 	inner, ok := outer.Elem().Underlying().(*types.Array)
 	if !ok || outer.Len() < 64 {
 		return undec("the table is not a [>=64][N] array")
@@ -489,9 +537,64 @@ func c12MatchReader(c *Ctx, p *Prog, spec string, diag bool, calc, other string)
 
 // ---------------------------------------------------------------- R1
 
+// c12PtrUse follows a pointer into a table (an address handed to a chess-3
+// helper): stores through it are writes, loads are harmless, anything that
+// lets the pointer out of sight is unknown.
+func c12PtrUse(v ssa.Value, seen map[ssa.Value]bool, depth int) (writes []ssa.Instruction, unknown bool) {
+	if seen[v] {
+		return nil, false
+	}
+	seen[v] = true
+	if v.Referrers() == nil || depth > 6 {
+		return nil, true
+	}
+	sub := func(x ssa.Value) {
+		w, u := c12PtrUse(x, seen, depth+1)
+		writes, unknown = append(writes, w...), unknown || u
+	}
+	for _, r := range *v.Referrers() {
+		switch x := r.(type) {
+		case *ssa.DebugRef:
+		case *ssa.IndexAddr, *ssa.FieldAddr, *ssa.ChangeType, *ssa.Slice, *ssa.Phi:
+			sub(x.(ssa.Value))
+		case *ssa.UnOp:
+			// a load: value copy (a loaded slice header would alias, tables are arrays)
+			if _, isSlice := x.Type().Underlying().(*types.Slice); isSlice || x.Op != token.MUL {
+				unknown = true
+			}
+		case *ssa.BinOp:
+			if x.Op != token.EQL && x.Op != token.NEQ {
+				unknown = true
+			}
+		case *ssa.Store:
+			if x.Addr == v {
+				writes = append(writes, x)
+			} else {
+				unknown = true
+			}
+		case ssa.CallInstruction:
+			callee := x.Common().StaticCallee()
+			if callee == nil || !isOwn(callee) || callee.Blocks == nil || x.Common().IsInvoke() || len(x.Common().Args) != len(callee.Params) {
+				unknown = true
+				continue
+			}
+			for k, a := range x.Common().Args {
+				if a == v {
+					sub(callee.Params[k])
+				}
+			}
+		default:
+			unknown = true
+		}
+	}
+	return
+}
+
 // c12CollectWriters: one EFFECT pass over all chess-3 functions; for every
 // package-level variable the sites that store to it or let its address escape
-// (What == "escape"). Same data as p.globalWriters, computed once.
+// (What == "escape"). Same data as p.globalWriters, computed once — except
+// that an address passed to a chess-3 helper is followed into the helper:
+// only stores through it count as writes, a read-only helper is not a writer.
 func c12CollectWriters(p *Prog) map[string][]site {
 	out := map[string][]site{}
 	for _, fn := range p.OwnFuncs() {
@@ -501,6 +604,29 @@ func c12CollectWriters(p *Prog) map[string][]site {
 		}
 		for g, ss := range e.Escapes {
 			for _, s := range ss {
+				if ci, ok := s.In.(ssa.CallInstruction); ok {
+					var writes []ssa.Instruction
+					unknown, found := false, false
+					callee := ci.Common().StaticCallee()
+					for k, a := range ci.Common().Args {
+						if _, ga, _ := rootOfAddrIfAddr(a); ga != g {
+							continue
+						}
+						found = true
+						if callee == nil || !isOwn(callee) || callee.Blocks == nil || ci.Common().IsInvoke() || k >= len(callee.Params) {
+							unknown = true
+							continue
+						}
+						w, u := c12PtrUse(callee.Params[k], map[ssa.Value]bool{}, 0)
+						writes, unknown = append(writes, w...), unknown || u
+					}
+					if found && !unknown {
+						for _, w := range writes {
+							out[g] = append(out[g], site{Fn: w.Parent(), Pos: w.Pos(), In: w, What: "store through pointer"})
+						}
+						continue
+					}
+				}
 				s.What = "escape"
 				out[g] = append(out[g], s)
 			}
@@ -525,13 +651,25 @@ func c12R1(c *Ctx, p *Prog, w map[string][]site, seen []*ssa.Global) {
 	n := 0
 	for _, g := range sortedKeys(names) {
 		n++
-		var out []string
+		var out, esc []string
 		for _, s := range w[g] {
-			if !p.initOnly(s.Fn) {
+			if p.initOnly(s.Fn) {
+				continue
+			}
+			if s.What == "escape" {
+				esc = append(esc, fmt.Sprintf("%s (%s)", fnName(s.Fn), p.Rel(s.Pos)))
+			} else {
 				out = append(out, fmt.Sprintf("%s %s(%s)", fnName(s.Fn), s.What, p.Rel(s.Pos)))
 			}
 		}
-		c.Check(len(out) == 0, rule, "immutable:"+g, p.globalPos(g), "%s is stored (or its address escapes) only during package initialisation; writers that can run later: %v", g, out)
+		switch {
+		case len(out) > 0:
+			c.Fail(rule, "immutable:"+g, p.globalPos(g), "%s is stored after package initialisation by %v", g, out)
+		case len(esc) > 0:
+			c.Undec(rule, "immutable:"+g, p.globalPos(g), "the address of %s leaves sight after package initialisation in %v (not a chess-3 helper that only loads through it): an unknown party may write the table", g, esc)
+		default:
+			c.Ok(rule, "immutable:"+g, p.globalPos(g), "%s is stored only during package initialisation; its address is handed only to chess-3 helpers that load through it", g)
+		}
 		if expr, _ := p.pkgVarInit(g); expr == nil {
 			continue // computed table: its fill is R4's business
 		}
@@ -628,7 +766,7 @@ func c12MatchLeaper(c *Ctx, p *Prog, spec string, offs [][2]int) *c12Leaper {
 		return nil
 	}
 	if res := c12SingleReturn(fn); res != nil {
-		if g, idx, ok := c12TableLoad(res); ok && idx == ssa.Value(fn.Params[0]) {
+		if g, idx, ok := c12TableLoad(c12Top(res)); ok && idx == ssa.Value(fn.Params[0]) {
 			return &c12Leaper{spec: spec, fn: fn, table: g, offs: offs}
 		}
 	}
@@ -676,7 +814,7 @@ func c12R4(c *Ctx, p *Prog, w map[string][]site, r *c12Reader) int {
 	if st == nil {
 		return undec("the write is not a plain store")
 	}
-	_, row, idx, ok := c12RowCell(st.Addr)
+	_, row, idx, ok := c12RowCell(c12Top(st.Addr))
 	if !ok {
 		return undec("the store does not address %s[sq][index]", r.table.Name())
 	}
@@ -693,7 +831,7 @@ func c12R4(c *Ctx, p *Prog, w map[string][]site, r *c12Reader) int {
 		return undec("the occupancy in the index is not a loop variable")
 	}
 	var enumMask *ssa.Global
-	isMask := func(v ssa.Value) bool {
+	isMask := func(v c12V) bool {
 		g, s, ok := c12TableLoad(v)
 		if ok && s == row && (enumMask == nil || enumMask == g) {
 			enumMask = g
@@ -701,14 +839,14 @@ func c12R4(c *Ctx, p *Prog, w map[string][]site, r *c12Reader) int {
 		}
 		return false
 	}
-	nextOf := func(v ssa.Value) bool { // v == (occ - mask) & mask
-		and, ok := c12StripWiden(v).(*ssa.BinOp)
-		if !ok || and.Op != token.AND {
+	nextOf := func(v ssa.Value) bool { // v == (occ - mask) & mask, possibly computed by a helper
+		_, aX, aY, ok := c12Bin(c12Top(v), token.AND)
+		if !ok {
 			return false
 		}
-		for _, o := range [][2]ssa.Value{{and.X, and.Y}, {and.Y, and.X}} {
+		for _, o := range [][2]c12V{{aX, aY}, {aY, aX}} {
 			saved := enumMask
-			if sub, ok := c12StripWiden(o[0]).(*ssa.BinOp); ok && sub.Op == token.SUB && c12StripWiden(sub.X) == ssa.Value(occ) && isMask(sub.Y) && isMask(o[1]) {
+			if _, sX, sY, ok := c12Bin(o[0], token.SUB); ok && c12Res(sX, false).v == ssa.Value(occ) && isMask(sY) && isMask(o[1]) {
 				return true
 			}
 			enumMask = saved
@@ -726,10 +864,10 @@ func c12R4(c *Ctx, p *Prog, w map[string][]site, r *c12Reader) int {
 	}
 	next, start := occ.Edges[ni], occ.Edges[1-ni]
 	isStart := func(v ssa.Value) (full, ok bool) {
-		if isMask(v) {
+		if isMask(c12Top(v)) {
 			return true, true
 		}
-		if k, isC := constOf(v); isC && k == 0 {
+		if k, isC := constOf(c12Res(c12Top(v), false).v); isC && k == 0 {
 			return false, true
 		}
 		return false, false
@@ -784,15 +922,15 @@ func c12R4(c *Ctx, p *Prog, w map[string][]site, r *c12Reader) int {
 	} else if name != r.calc || len(call.Call.Args) != 2 {
 		c.Undec(rule, vkey, call.Pos(), "%s fills %s with %s, expected %s(sq, occ)", fnName(fn), tname, name, r.calc)
 	} else {
-		a1 := c12StripWiden(call.Call.Args[1])
-		if and, ok := a1.(*ssa.BinOp); ok && and.Op == token.AND { // occ & mask == occ
-			if isMask(and.Y) {
-				a1 = c12StripWiden(and.X)
-			} else if isMask(and.X) {
-				a1 = c12StripWiden(and.Y)
+		a1 := c12Res(c12Top(call.Call.Args[1]), false).v
+		if _, aX, aY, ok := c12Bin(c12Top(call.Call.Args[1]), token.AND); ok { // occ & mask == occ
+			if isMask(aY) {
+				a1 = c12Res(aX, false).v
+			} else if isMask(aX) {
+				a1 = c12Res(aY, false).v
 			}
 		}
-		if c12StripSq(call.Call.Args[0]) == row && a1 == ssa.Value(occ) {
+		if c12Res(c12Top(call.Call.Args[0]), true).v == row && a1 == ssa.Value(occ) {
 			c.Ok(rule, vkey, call.Pos(), "%s stores %s(sq, occ) with the same square as the row and the same occupancy as the index", fnName(fn), name)
 		} else {
 			c.Undec(rule, vkey, call.Pos(), "%s(…) is not called with the row's square and the occupancy used in the index: a cell would receive the attack set of another square/occupancy", name)
@@ -814,10 +952,35 @@ func c12R4(c *Ctx, p *Prog, w map[string][]site, r *c12Reader) int {
 			}
 			for _, v := range []ssa.Value{sq, inc} {
 				for _, ref := range *v.Referrers() {
-					if cmp, ok := ref.(*ssa.BinOp); ok && cmp.Op == token.LSS && cmp.X == v {
-						if k, ok := constOf(cmp.Y); ok {
-							bound = k
+					cmp, ok := ref.(*ssa.BinOp)
+					if !ok || cmp.Referrers() == nil {
+						continue
+					}
+					// only the loop test: an If in the loop header, or one that jumps back to it
+					loopTest := false
+					for _, r2 := range *cmp.Referrers() {
+						if iff, ok := r2.(*ssa.If); ok {
+							loopTest = loopTest || iff.Block() == sq.Block()
+							for _, succ := range iff.Block().Succs {
+								loopTest = loopTest || succ == sq.Block()
+							}
 						}
+					}
+					if !loopTest {
+						continue
+					}
+					// v < K, v != K, K > v  → K ;  v <= K, K >= v → K+1
+					kx, xc := constOf(cmp.X)
+					ky, yc := constOf(cmp.Y)
+					switch {
+					case cmp.X == v && yc && (cmp.Op == token.LSS || cmp.Op == token.NEQ):
+						bound = ky
+					case cmp.X == v && yc && cmp.Op == token.LEQ:
+						bound = ky + 1
+					case cmp.Y == v && xc && (cmp.Op == token.GTR || cmp.Op == token.NEQ):
+						bound = kx
+					case cmp.Y == v && xc && cmp.Op == token.GEQ:
+						bound = kx + 1
 					}
 				}
 			}
@@ -825,7 +988,7 @@ func c12R4(c *Ctx, p *Prog, w map[string][]site, r *c12Reader) int {
 	}
 	switch {
 	case bound < 0:
-		c.Undec(rule, qkey, fn.Pos(), "%s: the square loop is not of the shape sq = 0; sq < N; sq++", fnName(fn))
+		c.Undec(rule, qkey, fn.Pos(), "%s: the square loop is not of the shape sq = 0; sq < N (or <= N-1, != N); sq++", fnName(fn))
 	case bound != 64:
 		c.Fail(rule, qkey, fn.Pos(), "%s fills squares 0..%d, the board has squares 0..63", fnName(fn), bound-1)
 	default:
@@ -939,7 +1102,7 @@ func c12R5(c *Ctx, p *Prog) {
 						continue
 					}
 					n++
-					c12EndsMasked(c, rule, key, fn, ld, [2]ssa.Value{outer.Index, inner.Index})
+					c12EndsMasked(c, p, rule, key, fn, ld, [2]ssa.Value{outer.Index, inner.Index})
 				}
 			}
 		})
@@ -986,32 +1149,73 @@ func c12Covers(term, end ssa.Value) bool {
 	return false
 }
 
-// c12EndsMasked follows the loaded value through and-operations; every use
-// other than an and must see both end squares removed.
-func c12EndsMasked(c *Ctx, rule, key string, fn *ssa.Function, ld ssa.Value, ends [2]ssa.Value) {
+// c12CallSites lists the static call sites of fn in chess-3; complete is false
+// when fn is also used as a value (unknown callers).
+func c12CallSites(p *Prog, fn *ssa.Function) (sites []ssa.CallInstruction, complete bool) {
+	complete = true
+	for _, f := range p.OwnFuncs() {
+		allInstrs(f, func(in ssa.Instruction) {
+			if ci, ok := in.(ssa.CallInstruction); ok && ci.Common().StaticCallee() == fn {
+				sites = append(sites, ci)
+				for _, a := range ci.Common().Args {
+					if a == ssa.Value(fn) {
+						complete = false
+					}
+				}
+				return
+			}
+			for _, op := range in.Operands(nil) {
+				if *op == ssa.Value(fn) {
+					complete = false
+				}
+			}
+		})
+	}
+	return
+}
+
+func c12ParamIndex(fn *ssa.Function, v ssa.Value) int {
+	for i, q := range fn.Params {
+		if ssa.Value(q) == stripConv(v) {
+			return i
+		}
+	}
+	return -1
+}
+
+// c12EndsMasked follows the loaded value through and-operations — also out of
+// a helper that returns it and into a chess-3 helper it is passed to together
+// with the end squares; every other use must see both end squares removed.
+func c12EndsMasked(c *Ctx, p *Prog, rule, key string, fn *ssa.Function, ld ssa.Value, ends [2]ssa.Value) {
+	type state struct {
+		ends    [2]ssa.Value
+		covered [2]bool
+		unknown bool // something not understood was and-ed off / a context could not be followed
+	}
 	type sink struct {
 		in      ssa.Instruction
 		missing int
-		unknown bool // something not understood was and-ed off
+		unknown bool
 	}
 	var sinks []sink
 	paths := 0
-	var walk func(v ssa.Value, removed []ssa.Value, depth int)
-	walk = func(v ssa.Value, removed []ssa.Value, depth int) {
-		miss, unknown := 0, false
-		for _, e := range ends {
-			ok := false
-			for _, t := range removed {
-				ok = ok || c12Covers(t, e)
-			}
+	absorb := func(st state, terms []ssa.Value) state {
+		for _, t := range terms {
+			c0, c1 := c12Covers(t, st.ends[0]), c12Covers(t, st.ends[1])
+			st.covered[0], st.covered[1] = st.covered[0] || c0, st.covered[1] || c1
+			// a removed term that is not recognisably the bitboard of one end square
+			// may or may not contain a missing end: undecided rather than violated
+			st.unknown = st.unknown || !(c0 || c1)
+		}
+		return st
+	}
+	var walk func(v ssa.Value, st state, depth int)
+	walk = func(v ssa.Value, st state, depth int) {
+		miss := 0
+		for _, ok := range st.covered {
 			if !ok {
 				miss++
 			}
-		}
-		for _, t := range removed {
-			// a removed term that is not recognisably the bitboard of one end square
-			// may or may not contain the missing end: undecided rather than violated
-			unknown = unknown || !(c12Covers(t, ends[0]) || c12Covers(t, ends[1]))
 		}
 		if miss == 0 {
 			paths++
@@ -1022,29 +1226,95 @@ func c12EndsMasked(c *Ctx, rule, key string, fn *ssa.Function, ld ssa.Value, end
 			return
 		}
 		for _, r := range *v.Referrers() {
-			if _, dbg := r.(*ssa.DebugRef); dbg {
+			switch x := r.(type) {
+			case *ssa.DebugRef:
 				continue
-			}
-			b, ok := r.(*ssa.BinOp)
-			switch {
-			case ok && b.Op == token.AND:
-				other := b.Y
-				if b.Y == v {
-					other = b.X
+			case *ssa.BinOp:
+				if x.Op == token.AND {
+					other := x.Y
+					if x.Y == v {
+						other = x.X
+					}
+					nst := st
+					if u, ok := stripConv(other).(*ssa.UnOp); ok && u.Op == token.XOR {
+						nst = absorb(st, c12OrTerms(u.X, nil))
+					}
+					walk(x, nst, depth+1)
+					continue
 				}
-				rm := removed
-				if u, ok := stripConv(other).(*ssa.UnOp); ok && u.Op == token.XOR {
-					rm = c12OrTerms(u.X, append([]ssa.Value{}, removed...))
+				if x.Op == token.AND_NOT && x.X == v {
+					walk(x, absorb(st, c12OrTerms(x.Y, nil)), depth+1)
+					continue
 				}
-				walk(b, rm, depth+1)
-			case ok && b.Op == token.AND_NOT && b.X == v:
-				walk(b, c12OrTerms(b.Y, append([]ssa.Value{}, removed...)), depth+1)
-			default:
-				sinks = append(sinks, sink{r, miss, unknown})
+			case *ssa.ChangeType:
+				walk(x, st, depth+1)
+				continue
+			case *ssa.Return:
+				// the helper returns the (partly) unmasked set: the callers must finish the job
+				sites, complete := c12CallSites(p, x.Parent())
+				if len(x.Results) == 1 && complete && len(sites) > 0 && depth < 6 {
+					for _, cs := range sites {
+						call, isCall := cs.(*ssa.Call)
+						if !isCall {
+							continue // go/defer: result discarded
+						}
+						nst, ok := st, true
+						for i := range nst.ends {
+							if nst.covered[i] {
+								continue
+							}
+							if k := c12ParamIndex(x.Parent(), nst.ends[i]); k >= 0 && k < len(call.Call.Args) {
+								nst.ends[i] = call.Call.Args[k]
+							} else {
+								ok = false
+							}
+						}
+						if !ok {
+							sinks = append(sinks, sink{x, miss, true})
+							continue
+						}
+						walk(call, nst, depth+2)
+					}
+					continue
+				}
+				sinks = append(sinks, sink{x, miss, true})
+				continue
+			case ssa.CallInstruction:
+				// passed to a chess-3 helper together with the end squares: follow the parameter
+				callee := x.Common().StaticCallee()
+				if callee != nil && isOwn(callee) && callee.Blocks != nil && !x.Common().IsInvoke() && len(x.Common().Args) == len(callee.Params) && depth < 6 {
+					nst, ok, at := st, true, -1
+					for j, a := range x.Common().Args {
+						if a == v {
+							at = j
+						}
+					}
+					for i := range nst.ends {
+						if nst.covered[i] {
+							continue
+						}
+						k := -1
+						for j, a := range x.Common().Args {
+							if sameValue(a, nst.ends[i], 0) {
+								k = j
+							}
+						}
+						if k < 0 {
+							ok = false
+						} else {
+							nst.ends[i] = callee.Params[k]
+						}
+					}
+					if ok && at >= 0 {
+						walk(callee.Params[at], nst, depth+2)
+						continue
+					}
+				}
 			}
+			sinks = append(sinks, sink{r, miss, st.unknown})
 		}
 	}
-	walk(ld, nil, 0)
+	walk(ld, state{ends: ends}, 0)
 	if len(sinks) == 0 {
 		c.Ok(rule, key, ld.Pos(), "%s: attacks.InBetween[a][b] is and-ed with the complement of both end squares on all %d use path(s) before any other use", fnName(fn), paths)
 		return
@@ -1057,7 +1327,7 @@ func c12EndsMasked(c *Ctx, rule, key string, fn *ssa.Function, ld ssa.Value, end
 			f := calleeObj(x)
 			what, hard = "a call argument", !(f != nil && f.Pkg() != nil && relPkg(f.Pkg().Path()) == "chess")
 		case *ssa.Return:
-			what, hard = "a returned value", true
+			what = "a value returned to callers that cannot be followed"
 		case *ssa.Store:
 			what, hard = "a stored value", true
 		case *ssa.BinOp:
@@ -1074,7 +1344,7 @@ func c12EndsMasked(c *Ctx, rule, key string, fn *ssa.Function, ld ssa.Value, end
 		} else {
 			why := "this use is not understood"
 			if s.unknown {
-				why = "a term that is and-ed off is not recognisable as the bitboard of an end square (1<<sq, the board sq was taken from with LowestSet, BitBoardFromSquares)"
+				why = "a term that is and-ed off is not recognisable as the bitboard of an end square (1<<sq, the board sq was taken from with LowestSet, BitBoardFromSquares), or the value leaves the function in a way that is not followed"
 			}
 			c.Undec(rule, key, pos, "%s: attacks.InBetween[a][b] becomes %s with %d end square(s) not provably and-ed off; %s", fnName(fn), what, s.missing, why)
 		}
@@ -1096,6 +1366,10 @@ func init() {
 		Mutant{Name: "C12.R1-literal-patched-in-init", Prop: "C12", File: tab,
 			Old: "\tinitBishopMagic()\n\tinitRookMagic()\n", New: "\tknightMoves[A1] |= 1 << C2\n\tinitBishopMagic()\n\tinitRookMagic()\n",
 			Expect: "C12.R1/literal:attacks.knightMoves"},
+		Mutant{Name: "C12.R1-table-written-through-helper-pointer", Prop: "C12", File: atk,
+			Old:    "func KingMoves(from Square) BitBoard {",
+			New:    "func patch(t *[64]BitBoard, sq Square, v BitBoard) { t[sq] |= v }\n\n// Tune lets a GUI widen a mask.\nfunc Tune(sq Square, v BitBoard) { patch(&rookMasks, sq, v) }\n\nfunc KingMoves(from Square) BitBoard {",
+			Expect: "C12.R1/immutable:attacks.rookMasks"},
 		// R2
 		Mutant{Name: "C12.R2-rook-magic-bit-flipped", Prop: "C12", File: tab, Quick: true,
 			Old: "0x2900804000800030", New: "0x2900804000800010", Expect: "C12.R2/attacks.RookMoves@a5"},
@@ -1111,6 +1385,10 @@ func init() {
 		Mutant{Name: "C12.R2-lookup-unmasked", Prop: "C12", File: atk,
 			Old: "return bishopAttacks[from][((occ&mask)*magic)>>(64-shift)]", New: "_ = mask\n\treturn bishopAttacks[from][(occ*magic)>>(64-shift)]",
 			Expect: "C12.R2/attacks.BishopMoves#lookup-shape"},
+		Mutant{Name: "C12.R2-index-helper-extracted-with-wrong-shift", Prop: "C12", File: atk,
+			Old:    "return bishopAttacks[from][((occ&mask)*magic)>>(64-shift)]",
+			New:    "return bishopAttacks[from][magicIndex(occ, mask, magic, shift)]\n}\n\nfunc magicIndex(occ, mask, magic BitBoard, bits byte) BitBoard {\n\treturn ((occ & mask) * magic) >> (63 - bits)",
+			Expect: "C12.R2/attacks.BishopMoves@"},
 		// R3
 		Mutant{Name: "C12.R3-king-h1-wraps-to-a-file", Prop: "C12", File: tab, Quick: true,
 			Old: "0x000000000000e0a0, 0x000000000000c040,", New: "0x000000000000e0a0, 0x000000000000c140,", Expect: "C12.R3/attacks.KingMoves@h1"},
@@ -1135,6 +1413,10 @@ func init() {
 		Mutant{Name: "C12.R5-attacker-square-not-masked", Prop: "C12", File: brd, Quick: true,
 			Old: "blocked := attacks.InBetween[kingSq][aSq] & ^(king | attacker)", New: "blocked := attacks.InBetween[kingSq][aSq] & ^king",
 			Expect: "C12.R5/board.(*Board).IsCheckmate"},
+		Mutant{Name: "C12.R5-wrapper-returns-raw-caller-forgets-attacker", Prop: "C12", File: brd,
+			Old: "blocked := attacks.InBetween[kingSq][aSq] & ^(king | attacker)", New: "blocked := rawBetween(kingSq, aSq) & ^king",
+			File2: brd, Old2: "func (b *Board) InCheck(who Color) bool {", New2: "func rawBetween(a, b Square) BitBoard { return attacks.InBetween[a][b] }\n\nfunc (b *Board) InCheck(who Color) bool {",
+			Expect: "C12.R5/board.rawBetween"},
 		Mutant{Name: "C12.R5-ends-not-masked", Prop: "C12", File: brd,
 			Old: "blocked := attacks.InBetween[kingSq][aSq] & ^(king | attacker)", New: "blocked := attacks.InBetween[kingSq][aSq]",
 			Expect: "C12.R5/board.(*Board).IsCheckmate"},
